@@ -58,9 +58,19 @@ class Engine:
             (i for i, a in enumerate(self.schedule) if 'at' in a), key=lambda i: (self.schedule[i]['at'], i)
         )
         self.pending_on = {}
+        self.pending_q = {}
+        self.pending_t = []
         for i, a in enumerate(self.schedule):
             if 'on' in a:
                 self.pending_on.setdefault((a['on'][0], a['on'][1]), []).append(i)
+            elif 'q' in a:
+                self.pending_q.setdefault(a['q'], []).append(i)
+            elif 't' in a:
+                self.pending_t.append(i)
+        self.communicator = None
+        self.controller = None
+        self.thread_controller = None
+        self.quiescences = 0
         self.notify_counts = {}
         self.transitions = []  # (from, to) from ENTERED_STATE callbacks
         self.samples = []  # (tick, state, paused, terminated, future_done) on change
@@ -88,14 +98,28 @@ class Engine:
         else:
             self.cls = programs.build_process_class(self.case['program'], self.world, plumpy,
                                                     hooks=self.opts.get('hooks', True))
+        if self.opts.get('comm'):
+            from . import comm
+
+            self.communicator = comm.SimCommunicator(self.loop)
+            for kind in self.opts.get('subscribe_timeouts') or []:
+                self.communicator.subscribe_timeouts.add(kind)
+            self.controller = plumpy.RemoteProcessController(self.communicator)
+            self.thread_controller = plumpy.RemoteProcessThreadController(self.communicator)
         try:
-            self.proc = self.cls(inputs=self.case['program'].get('inputs'), loop=self.loop)
+            self.proc = self.cls(inputs=self.case['program'].get('inputs'), pid=self.opts.get('pid'), loop=self.loop,
+                                 communicator=self.communicator)
         except Exception as exc:  # noqa: BLE001 - construction faults are judged by C03
             self.construct_error = exc
             return False
         self.attach(self.proc, 'p')
         self.task = self.loop.create_task(self.proc.step_until_terminated())
+        for index in self.pending_t:
+            self.loop.call_at(self.schedule[index]['t'], self._fire_timed, index)
         return True
+
+    def _fire_timed(self, index):
+        self.fire(index, 'timed')
 
     def attach(self, proc, label):
         plumpy = self.plumpy
@@ -217,6 +241,8 @@ class Engine:
                         raise exc
 
                 rec.result = proc.call_soon(callback)
+            elif kind in ('rpc', 'bcast'):
+                rec.result = self._send_message(action)
             elif kind == 'complete':
                 future = self.world.futures.get(action['fut'])
                 if future is None or future.done():
@@ -252,6 +278,54 @@ class Engine:
         self.sample()
         return rec
 
+    def _send_message(self, action):
+        """Send a control message through plumpy's own controllers; returns what the controller hands back."""
+        from plumpy.process_comms import Intent, MessageBuilder
+
+        intent, text = action['intent'], action.get('msg')
+        pid = self.proc.pid
+        self.communicator.delivery_queue.append({'delay': action.get('delay', 0.0), 'duplicate': bool(action.get('dup')),
+                                                 'reorder': bool(action.get('reorder'))})
+        if action['act'] == 'bcast':
+            controller = self.thread_controller
+            if intent == 'pause':
+                return controller.pause_all(text)
+            if intent == 'play':
+                return controller.play_all()
+            if intent == 'kill':
+                return controller.kill_all(text)
+            return self.communicator.broadcast_send(None, subject=intent)
+        if action.get('via') == 'thread':
+            controller = self.thread_controller
+            if intent == 'pause':
+                return controller.pause_process(pid, text)
+            if intent == 'play':
+                return controller.play_process(pid)
+            if intent == 'kill':
+                return controller.kill_process(pid, text)
+            if intent == 'status':
+                return controller.get_status(pid)
+            return self.communicator.rpc_send(pid, {'intent': intent})
+        controller = self.controller
+        if intent == 'pause':
+            coro = controller.pause_process(pid, text)
+        elif intent == 'play':
+            coro = controller.play_process(pid)
+        elif intent == 'kill':
+            coro = controller.kill_process(pid, text)
+        elif intent == 'status':
+            coro = controller.get_status(pid)
+        else:
+            coro = self._raw_rpc(pid, {'intent': intent})
+        return self.loop.create_task(coro)
+
+    async def _raw_rpc(self, pid, msg):
+        future = self.communicator.rpc_send(pid, msg)
+        result = await asyncio.wrap_future(future)
+        while isinstance(result, __import__('kiwipy').Future):
+            result = await asyncio.wrap_future(result)
+        return result
+
     # -- running -----------------------------------------------------------------------------
     def run_to_quiescence(self):
         with self.loop.running():
@@ -264,9 +338,26 @@ class Engine:
             while True:
                 while self.loop.step_once():
                     pass
-                if not self.pending_at:
-                    break
-                self.fire(self.pending_at.pop(0), 'idle')
+                if self.communicator is not None:
+                    self.communicator.net.flush()
+                    if self.loop.runnable():
+                        continue
+                now = self.pending_q.pop(self.quiescences, None)
+                self.quiescences += 1
+                if now:
+                    for index in now:
+                        self.fire(index, 'quiescent')
+                    continue
+                if self.pending_at:
+                    self.fire(self.pending_at.pop(0), 'idle')
+                    continue
+                if self.pending_q:
+                    # quiescence points that the run never reached: fire them in order now
+                    key = min(self.pending_q)
+                    for index in self.pending_q.pop(key):
+                        self.fire(index, 'quiescent')
+                    continue
+                break
 
     def extra_action(self, action, where='driveout'):
         self.schedule.append(action)
